@@ -39,7 +39,7 @@ func init() { hx.Register("C40", Run) }
 // Step is one operation of a history; the script (with the per-block transaction counts) is the
 // replayable input.
 type Step struct {
-	Op  string `json:"op"`            // commit | stale | future | header | badheader | forkheader | reopen | check
+	Op  string `json:"op"`            // commit | submit | stale | future | header | rival | badheader | forkheader | reopen | check
 	Idx int    `json:"idx,omitempty"` // block index for stale/future/badheader; distance below the tip for forkheader
 	All bool   `json:"all,omitempty"` // check: query every height (else a sample)
 }
@@ -189,7 +189,11 @@ func (r *runner) heights(all bool) []uint32 {
 		}
 	}
 	if r.cur <= 40 {
-		for h := 0; h <= r.cur; h++ {
+		lo := 0
+		if !all && r.hist.Kind == "rival" && r.cur > 3 {
+			lo = r.cur - 3 // checkpoints between the commits of a rival history: the tip only
+		}
+		for h := lo; h <= r.cur; h++ {
 			add(h)
 		}
 	} else {
@@ -242,6 +246,12 @@ func (r *runner) checkpoint(all bool) string {
 	if int(curH) != r.cur {
 		r.fail("current-height", "in-memory current height differs from the number of accepted blocks", curH, r.cur)
 	}
+	if r.cur < len(r.src) {
+		wantCur := r.src[r.cur].Hash()
+		if curHash != wantCur || st.GetCurrentBlockHash() != wantCur {
+			r.fail("current-hash", "the current block hash is not the hash of the last committed block", curHash.ToHexString(), wantCur.ToHexString())
+		}
+	}
 	hs := r.heights(all)
 	visited := map[uint32]bool{}
 	for _, h := range hs {
@@ -258,6 +268,11 @@ func (r *runner) checkpoint(all bool) string {
 			blkTerm = "(Some (Some " + coqBlock(blk) + "))"
 		}
 		qs = append(qs, fmt.Sprintf("QH %d %d %s %s %s", h, id64(got), coqOptHash(ch, cok), coqOptHash(dh, derr == nil), blkTerm))
+		hhTerm := "None"
+		if hh, e := st.GetHeaderByHeight(h); e == nil && hh != nil {
+			hhTerm = "(Some " + coqHeader(hh) + ")"
+		}
+		qs = append(qs, fmt.Sprintf("QHH %d %s", h, hhTerm))
 		if int(h) <= r.cur {
 			r.oracle(h, got, blk, err)
 			visited[h] = true
@@ -380,6 +395,15 @@ func (r *runner) oracle(h uint32, got common.Uint256, blk *types.Block, err erro
 		r.fail("query:header-by-hash", "GetHeaderByHash(hash) returns a different header",
 			map[string]interface{}{"height": h, "header": hx.Hex(headerBytes(hd))}, hx.Hex(headerBytes(want.Header)))
 	}
+	hh, err := st.GetHeaderByHeight(h)
+	if err != nil || hh == nil {
+		r.fail("query:header-by-height", "GetHeaderByHeight(height) does not return the committed header",
+			map[string]interface{}{"height": h, "err": fmt.Sprint(err)}, "the committed header")
+	} else if !bytes.Equal(headerBytes(hh), headerBytes(want.Header)) {
+		hhh := hh.Hash()
+		r.fail("query:header-by-height", "GetHeaderByHeight(height) returns a different header",
+			map[string]interface{}{"height": h, "hash": hhh.ToHexString()}, wh.ToHexString())
+	}
 	for i, t := range want.Transactions {
 		th := t.Hash()
 		gt, gh, err := st.GetTransaction(th)
@@ -416,6 +440,17 @@ func statusOf(err error, changed bool) string {
 	return "Ignored"
 }
 
+// competitor builds a correctly signed header for the height of source block idx that differs from
+// it (consensus data), on top of prev.
+func (r *runner) competitor(idx int, prev common.Uint256) *types.Header {
+	o := r.src[idx].Header
+	fork := &types.Block{Header: &types.Header{Version: o.Version, PrevBlockHash: prev, TransactionsRoot: o.TransactionsRoot,
+		BlockRoot: o.BlockRoot, Timestamp: o.Timestamp, Height: o.Height, ConsensusData: o.ConsensusData + 77 + uint64(r.nq),
+		ConsensusPayload: o.ConsensusPayload, NextBookkeeper: o.NextBookkeeper}, Transactions: r.src[idx].Transactions}
+	r.k.SignBlock(fork)
+	return fork.Header
+}
+
 // addOp appends an operation to the current segment (flushing a pending run of empty commits).
 func (r *runner) addOp(term string) {
 	r.flushRun()
@@ -439,13 +474,21 @@ func (r *runner) endSegment(all bool) {
 func (r *runner) step(s Step) {
 	st := r.store()
 	switch s.Op {
-	case "commit":
+	case "commit", "submit":
 		if r.cur+1 >= len(r.src) {
 			return
 		}
 		b := r.src[r.cur+1]
 		before := st.GetCurrentBlockHeight()
-		err := r.k.AddMadeBlock(b)
+		var err error
+		if s.Op == "submit" { // the consensus path: ExecuteBlock + SubmitBlock
+			res, e := st.ExecuteBlock(b)
+			if err = e; e == nil {
+				err = st.SubmitBlock(b, nil, res)
+			}
+		} else {
+			err = r.k.AddMadeBlock(b)
+		}
 		after := st.GetCurrentBlockHeight()
 		status := statusOf(err, after != before)
 		if status != "Added" {
@@ -459,7 +502,7 @@ func (r *runner) step(s Step) {
 		} else {
 			r.addOp(fmt.Sprintf("XCommit %s %s", coqBlock(b), status))
 		}
-		r.c.Count(fmt.Sprintf("op:commit ntx=%d", len(b.Transactions)))
+		r.c.Count(fmt.Sprintf("op:%s ntx=%d", s.Op, len(b.Transactions)))
 	case "stale", "future":
 		if s.Idx < 0 || s.Idx >= len(r.src) {
 			return
@@ -475,22 +518,40 @@ func (r *runner) step(s Step) {
 		}
 		r.addOp(fmt.Sprintf("XCommit %s %s", coqBlock(b), status))
 		r.c.Count("op:" + s.Op + " " + status)
-	case "header", "badheader":
+	case "header", "badheader", "rival":
+		// header: the next header of the source chain (or, when the ledger's header chain has already
+		// left the source chain, a competitor built on what is indexed); rival: a correctly signed
+		// competitor of the next source header (same height and transactions root, different
+		// consensus data) built on the header indexed below it; badheader: a header at another height
+		next := int(st.GetCurrentHeaderHeight()) + 1
 		idx := s.Idx
-		if s.Op == "header" {
-			idx = int(st.GetCurrentHeaderHeight()) + 1
+		if s.Op != "badheader" {
+			idx = next
+		} else if idx == next {
+			return
 		}
-		if idx < 0 || idx >= len(r.src) {
+		if idx < 1 || idx >= len(r.src) {
 			return
 		}
 		h := r.src[idx].Header
+		kind := s.Op
+		if s.Op != "badheader" {
+			prev := st.GetBlockHash(uint32(idx - 1))
+			if s.Op == "rival" || prev != h.PrevBlockHash {
+				h = r.competitor(idx, prev)
+				kind = "rival"
+			}
+		}
 		err := st.AddHeader(h)
 		status := statusOf(err, true)
 		if err == nil && idx > r.hdr {
 			r.hdr = idx
 		}
+		if err != nil && s.Op != "badheader" {
+			r.fail("header-refused", "a correctly signed next header was not accepted", fmt.Sprint(err), "accepted")
+		}
 		r.addOp(fmt.Sprintf("XHeader %s %s", coqHeader(h), status))
-		r.c.Count("op:" + s.Op + " " + status)
+		r.c.Count("op:" + kind + " " + status)
 	case "forkheader":
 		// a correctly signed header that differs from the committed block at a committed height
 		// (Idx below the tip): AddHeader must refuse it, the committed chain stays what it is
@@ -498,11 +559,7 @@ func (r *runner) step(s Step) {
 		if idx < 1 || idx >= len(r.src) {
 			return
 		}
-		o := r.src[idx].Header
-		fork := &types.Block{Header: &types.Header{Version: o.Version, PrevBlockHash: o.PrevBlockHash, TransactionsRoot: o.TransactionsRoot,
-			BlockRoot: o.BlockRoot, Timestamp: o.Timestamp, Height: o.Height, ConsensusData: o.ConsensusData + 77,
-			ConsensusPayload: o.ConsensusPayload, NextBookkeeper: o.NextBookkeeper}, Transactions: r.src[idx].Transactions}
-		r.k.SignBlock(fork)
+		fork := &types.Block{Header: r.competitor(idx, r.src[idx].Header.PrevBlockHash)}
 		err := st.AddHeader(fork.Header)
 		status := statusOf(err, true)
 		if err == nil {
@@ -645,7 +702,11 @@ func genSmall(c *hx.Ctx, n, maxTx int) History {
 				hdr = top + 1
 			}
 		case x == 12:
-			h.Steps = append(h.Steps, Step{Op: "badheader", Idx: c.Intn(n + 1)})
+			if lookahead > 0 && c.Intn(2) == 0 {
+				h.Steps = append(h.Steps, Step{Op: "rival"})
+			} else {
+				h.Steps = append(h.Steps, Step{Op: "badheader", Idx: c.Intn(n + 1)})
+			}
 		case x == 13:
 			if c.Intn(2) == 0 {
 				h.Steps = append(h.Steps, Step{Op: "stale", Idx: c.Intn(committed + 1)})
@@ -664,6 +725,66 @@ func genSmall(c *hx.Ctx, n, maxTx int) History {
 		}
 	}
 	h.Steps = append(h.Steps, Step{Op: "check", All: true}, Step{Op: "reopen"}, Step{Op: "forkheader"}, Step{Op: "check", All: true})
+	return h
+}
+
+// genRival: header-first sync where the headers received ahead are not the blocks that get committed:
+// at several heights a competitor header (and/or the matching header, and competitors further ahead)
+// is given to AddHeader before a different block is committed at that height, through AddBlock or
+// ExecuteBlock+SubmitBlock. Everything is queried right after each such commit, after more than
+// BLOCK_CAHE_SIZE further blocks, and after Close/Open.
+func genRival(c *hx.Ctx, n int) History {
+	h := History{Kind: "rival"}
+	for i := 0; i < n; i++ {
+		h.NTx = append(h.NTx, c.Intn(4))
+	}
+	commit := func() {
+		if c.Intn(3) == 0 {
+			h.Steps = append(h.Steps, Step{Op: "submit"})
+		} else {
+			h.Steps = append(h.Steps, Step{Op: "commit"})
+		}
+	}
+	tail := int(ledgerstore.BLOCK_CAHE_SIZE) + 2
+	committed := 0
+	for committed < n-tail {
+		ahead := 1 + c.Intn(3)
+		if ahead > n-tail-committed {
+			ahead = n - tail - committed
+		}
+		switch c.Intn(4) {
+		case 0: // competitors all the way
+			for i := 0; i < ahead; i++ {
+				h.Steps = append(h.Steps, Step{Op: "rival"})
+			}
+		case 1: // the matching header first, competitors above it
+			h.Steps = append(h.Steps, Step{Op: "header"})
+			for i := 1; i < ahead; i++ {
+				h.Steps = append(h.Steps, Step{Op: "rival"})
+			}
+		case 2: // a competitor, then whatever builds on it
+			h.Steps = append(h.Steps, Step{Op: "rival"})
+			for i := 1; i < ahead; i++ {
+				h.Steps = append(h.Steps, Step{Op: "header"})
+			}
+		default: // plain header-first
+			for i := 0; i < ahead; i++ {
+				h.Steps = append(h.Steps, Step{Op: "header"})
+			}
+		}
+		h.Steps = append(h.Steps, Step{Op: "check"})
+		for i := 0; i < ahead; i++ {
+			commit()
+			committed++
+			h.Steps = append(h.Steps, Step{Op: "check"})
+		}
+	}
+	for committed < n {
+		commit()
+		committed++
+	}
+	h.Steps = append(h.Steps, Step{Op: "check", All: true}, Step{Op: "reopen"}, Step{Op: "rival"}, Step{Op: "check", All: true},
+		Step{Op: "reopen"}, Step{Op: "check", All: true})
 	return h
 }
 
@@ -803,10 +924,13 @@ func Run(c *hx.Ctx) {
 			runHistory(c, h, fmt.Sprintf("corpus%d", i))
 		}
 	}
-	nSmall := c.N(14, 150)
+	nSmall := c.N(10, 150)
 	for i := 0; i < nSmall; i++ {
 		n := 2 + c.Intn(c.N(10, 24))
 		runHistory(c, genSmall(c, n, 4), fmt.Sprintf("small%d", i))
+	}
+	for i := 0; i < c.N(2, 12); i++ {
+		runHistory(c, genRival(c, int(ledgerstore.BLOCK_CAHE_SIZE)+6+c.Intn(6)), fmt.Sprintf("rival%d", i))
 	}
 	runHistory(c, genBigTx(c), "bigtx0")
 	win := int(ledgerstore.HEADER_INDEX_MAX_SIZE)
